@@ -528,6 +528,12 @@ func (m *Manager) acquireTasks(envId uid.ID, taskDescriptors Descriptors) (err e
 			undeployableNonCriticalDescriptors = make(Descriptors, 0)
 			undeployableCriticalDescriptors = make(Descriptors, 0)
 
+			// The tasks launched by an attempt which is given up are not part of the next one, which deploys all
+			// descriptors again: they stay in the roster, unowned, and fall to the next cleanup like the
+			// leftovers of a failed deployment.
+			for taskPtr := range deployedTasks {
+				taskPtr.SetParent(nil)
+			}
 			deployedTasks = make(DeploymentMap)
 
 			outcomeCh := make(chan ResourceOffersOutcome)
@@ -555,6 +561,12 @@ func (m *Manager) acquireTasks(envId uid.ID, taskDescriptors Descriptors) (err e
 					WithField("partition", envId))
 
 			deployedTasks = roOutcome.deployed
+			// The launched tasks are known to the roster from now on, whatever becomes of this attempt: their
+			// status updates must find them (a task which is not in the roster misses its TASK_RUNNING and is
+			// later dropped as inactive instead of being killed), and so must a cleanup.
+			for taskPtr := range deployedTasks {
+				m.roster.append(taskPtr)
+			}
 			undeployedDescriptors = roOutcome.undeployed
 			undeployableDescriptors = roOutcome.undeployable
 
@@ -649,10 +661,7 @@ func (m *Manager) acquireTasks(envId uid.ID, taskDescriptors Descriptors) (err e
 		}
 	}
 
-	// Finally, we write to the roster. Point of no return!
-	for taskPtr := range deployedTasks {
-		m.roster.append(taskPtr)
-	}
+	// (the deployed tasks were written to the roster as soon as they were launched)
 	if deploymentSuccess {
 		for taskPtr := range deployedTasks {
 			taskPtr.GetParent().SetTask(taskPtr)
